@@ -317,6 +317,14 @@ fn series(rng: &mut Rng) {
                         v.require(cs.iter().any(|c| *c >= xs[k] - 1e-9 && *c <= xs[k + 1] + 1e-9), "crossings.complete", || format!("{xs:?} {ysg:?} level {lv}: segment {k} missed, got {cs:?}"));
                     }
                 }
+                // a knot whose ordinate IS the level is an abscissa where the interpolant equals the level
+                // (an isolated touch, or an end of a segment lying on the level - the last knot included)
+                for k in 0..n {
+                    if ysg[k] == lv {
+                        let xk = xs[k];
+                        v.require(cs.iter().any(|c| (*c - xk).abs() <= 1e-9 * (1.0 + xk.abs())), "crossings.knot_on_level_reported", || format!("{xs:?} {ysg:?} level {lv}: knot {k} (x={xk}) missing, got {cs:?}"));
+                    }
+                }
                 o.flist(&cs);
             }
         }
